@@ -126,6 +126,7 @@ fn na_convert(tok: Token, as_: PullAs) -> core::result::Result<u64, Error> {
         PullAs::Auto => scpi_contrib::scpi1999::util::Auto::try_from(tok)?.auto_enabled() as u64,
         PullAs::IterNumList => na_convert(tok, PullAs::To(Target::NumList))?,
         PullAs::IterChanList => na_convert(tok, PullAs::To(Target::ChanList))?,
+        PullAs::All => 0,
     })
 }
 
